@@ -160,7 +160,7 @@ def c_history(ctx, args):
     return history.reused_object_history(ctx, kind, n, seed, steps, which)
 
 
-CHECKS = {'duality_corr': c_duality_corr, 'to_state_dense': c_to_state_dense, 'ctor': c_ctor, 'stab_state': c_stab_state, 'history': c_history}
+CHECKS = {'density': __import__('props.C19', fromlist=['c_density']).c_density, 'duality_corr': c_duality_corr, 'to_state_dense': c_to_state_dense, 'ctor': c_ctor, 'stab_state': c_stab_state, 'history': c_history}
 
 
 def run(ctx):
@@ -178,6 +178,13 @@ def run(ctx):
         for sd in range(3):
             do(ctx, 'ctor', ['bit', n, sd], nontrivial=('bit', n, sd))
             do(ctx, 'ctor', ['rpauli', n, sd], nontrivial=('rp', n, sd))
+    # the exported density matrix (PauliPolynomial form): every product of the active stabilizers once, weight 2^-N -- both backends, small groups and groups of 8..12 generators
+    for it in range(int(30 * B)):
+        n = rng.randint(1, 5)
+        do(ctx, 'density', [gen.rtableau(rng, ctx.model, n), rng.choice(['np', 'torch'])], nontrivial=('dm', it))
+    for k, n in [(8, 8), (9, 9), (9, 10), (10, 11), (12, 12)]:
+        for be in ('np', 'torch'):
+            do(ctx, 'density', [gen.rtableau(rng, ctx.model, n, r=n - k), be], nontrivial=('dml', be, k, n))
     # LARGE registers: byte, word and cache-line boundaries of every packed or vectorised representation (8, 9, 16, 17, 33, 64, 65 qubits); model correspondence only
     for n in gen.BIG:
         for be in (['np', 'torch'] if n <= 33 else ['np']):
